@@ -8,28 +8,6 @@ open Scc
 
 variable {q : Core.Prog} {p : Fun.CheckedProgram}
 
-theorem argsSnoc_eq : ∀ (as : Core.Args) (pc : Core.PC) (t : Core.Term),
-    argsSnoc as pc t = appArgs as (.cons pc t .nil)
-  | .nil, _, _ => rfl
-  | .cons p a r, pc, t => by simp [argsSnoc, appArgs, argsSnoc_eq r pc t]
-
-theorem mem_tfvArgs_app {y : Core.Binding} : ∀ (a b : Core.Args),
-    y ∈ tfvArgs (appArgs a b) [] ↔ y ∈ tfvArgs a [] ∨ y ∈ tfvArgs b []
-  | .nil, b => by simp [appArgs, tfvArgs]
-  | .cons pc t r, b => by
-    simp only [appArgs]
-    rw [mem_tfv_args_cons, mem_tfv_args_cons, mem_tfvArgs_app r b, or_assoc]
-
-theorem bind_snoc : ∀ (ctx : Core.Ctx) (Vs : List CVal) (ρ : CEnv) (b : Core.Binding) (V : CVal),
-    ctx.length = Vs.length →
-    Core.Env.bind ρ (ctx ++ [b]) (Vs ++ [V]) = Core.Env.bind ((b.var, V) :: ρ) ctx Vs
-  | [], [], ρ, b, V, _ => by simp [Core.Env.bind]
-  | [], _ :: _, _, _, _, h => by simp at h
-  | _ :: _, [], _, _, _, h => by simp at h
-  | c :: ctx, W :: Vs, ρ, b, V, h => by
-    simp only [List.cons_append, Core.Env.bind]
-    rw [bind_snoc ctx Vs ρ b V (by simpa using h)]
-
 theorem argVals_length {ρ : CEnv} : ∀ (as : Core.Args) (Vs : List CVal),
     Core.argVals ρ as = .ok Vs → argsAllVar as = true → True
   | _, _, _, _ => trivial
@@ -53,8 +31,9 @@ theorem eval_call (X : Ctx p q) {f : String} {as : Fun.Terms}
     {rty : Option Fun.Ty} {env : Fun.Env} {k : Fun.Stack} {c : Core.Term} {s : Core.Stmt}
     {ρ0 ρ : CEnv} {out : Out} {n : Nat} (hg : good p (.call f as rty) = true)
     (hc : Compiled q n (.call f as rty) c s)
-    (he : EnvRel (GP p) q n (fv (.call f as rty)) env ρ0) (hr : CRel (GP p) q n k c ρ0)
-    (hbd : BoundOn (tfvStmt s []) ρ0) (hag : AgreeOn (tfvStmt s []) ρ0 ρ) :
+    (he : EnvRel (GP p) p q n (fv (.call f as rty)) env ρ0) (hr : CRel (GP p) p q n k c ρ0)
+    (hbd : BoundOn (tfvStmt s []) ρ0) (hag : AgreeOn (tfvStmt s []) ρ0 ρ)
+    (hT : STM p (.eval (.call f as rty) env k)) :
     Chunk p q (R p q) true true μ (.eval (.call f as rty) env k) ⟨s, ρ, out, n⟩ := by
   simp only [good, Bool.and_eq_true, bne_iff_ne, ne_eq] at hg
   obtain ⟨⟨hfm, hgps⟩, _⟩ := hg
@@ -113,41 +92,29 @@ theorem eval_call (X : Ctx p q) {f : String} {as : Fun.Terms}
                 (he.sub fun y hy => by simpa [fv] using hy) hbdas hagas rfl trivial rfl
             simp only [appArgs, List.nil_append] at hc1 hsb hav
             -- the consumer
-            obtain ⟨ρ01, hext0, hag1⟩ := hext1.agree (ρ0 := ρ0)
-            have hr1 : CRel (GP p) q n1 k c ρ1 :=
-              ((hr.mono hn1).sigExt hext0 (hcn.sig_lt (Nat.le_refl n))).agree (hag1 _ hagc)
-            cases hr1 with
-            | @mk _ _ _ cv hcv hk hi hbc htyc =>
-              -- reach a call whose arguments are all variables
-              have hreach : ∃ i2 ρ2 n2 pc z tz, CSteps q
-                  ⟨.call ⟨f, 0⟩ (appArgs as'' (.cons .cns c .nil)) (compileTy τ), ρ1, out, n1⟩
-                  ⟨.call ⟨f, 0⟩ (appArgs as'' (.cons .cns (.var pc z tz) .nil)) (compileTy τ), ρ2, out, n2⟩ i2 ∧
-                  n1 ≤ n2 ∧ Core.argVals ρ2 (appArgs as'' (.cons .cns (.var pc z tz) .nil)) = .ok (Vs ++ [cv]) := by
-                cases hcv' : c.isVar with
-                | true =>
-                  cases c with
-                  | var pc z tz =>
-                    simp only [Core.cnsVal] at hcv
-                    exact ⟨0, ρ1, n1, pc, z, tz, .refl _, Nat.le_refl _, argVals_app_single as'' Vs hav hcv⟩
-                  | _ => simp [Core.Term.isVar] at hcv'
-                | false =>
-                  have hsp : (Core.Stmt.call ⟨f, 0⟩ (appArgs as'' (.cons .cns c .nil)) (compileTy τ)).split =
-                      some (.cns, c, fun h => .call ⟨f, 0⟩ (appArgs as'' (.cons .cns h .nil)) (compileTy τ)) :=
-                    argCtx_call _ _ _ _ _ _ (by
-                      rw [args_split_app _ _ hall, args_split_cons_nonvar hcv'])
-                  have s1 := step_sigma (q := q)
-                    (st := ⟨.call ⟨f, 0⟩ (appArgs as'' (.cons .cns c .nil)) (compileTy τ), ρ1, out, n1⟩) hsp
-                  simp only [Core.sigmaCut] at s1
-                  have s2 := step_cut_mu (q := q) (cty := c.ty) (ty := c.ty)
-                    (by rw [← coreGetType_eq_ty]; exact htyc) (a := Core.sigmaName n1)
-                    (s := .call ⟨f, 0⟩ (appArgs as'' (.cons .cns (.var .cns (Core.sigmaName n1) c.ty) .nil))
-                      (compileTy τ)) (ρ := ρ1) (out := out) (n := n1 + 1) hi hcv .prd
-                  refine ⟨2, (Core.sigmaName n1, cv) :: ρ1, n1 + 1, .cns, Core.sigmaName n1, c.ty,
-                    (CSteps.one s1).trans (.one s2), Nat.le_succ _, ?_⟩
-                  refine argVals_app_single as'' Vs ?_ (lookup_cons_self _ _ _)
-                  rw [argVals_sigExt ((SigExt.refl n1 ρ1).cons (Nat.le_refl n1)) as'' hsb]
-                  exact hav
-              obtain ⟨i2, ρ2, n2, pc, z, tz, hc2, hn2, hav2⟩ := hreach
+            have hsigc : ∀ b ∈ tfvTerm c [], b.var.name = sig → b.var.id < n1 := fun b hb e => by
+              have := hcn.sig_lt (Nat.le_refl n) b hb e; omega
+            have hagc1 : AgreeOn (tfvTerm c []) ρ0 ρ1 := by
+              intro b hb
+              rw [hext1.lookup b.var (hcn.sig_lt (Nat.le_refl n) b hb)]
+              exact hagc b hb
+            obtain ⟨i2, ρ2, n2, pc, z, tz, cv, hc2, hn2, hext2, hlz, _, hk⟩ :=
+              focus_cons (hr.mono hn1) (Nat.le_refl n1) hsigc hagc1
+                (fun h => .call ⟨f, 0⟩ (appArgs as'' (.cons .cns h .nil)) (compileTy τ))
+                (fun hv => argCtx_call _ _ _ _ _ _ (by
+                  rw [args_split_app _ _ hall, args_split_cons_nonvar hv]))
+                out
+                (fun hcd' _ a' s' => force_cr X (hr.mono hn1) hcd' (cty := c.ty)
+                  (P := .mu .prd a' c.ty s') (ρ := ρ1) (out := out) (m := n1 + 1)
+                  (by rw [← coreGetType_ty]; exact hcd') trivial (by omega) hagc1
+                  (prdOK_mu _ _ _ _ _ _))
+            have hav2 : Core.argVals ρ2 (appArgs as'' (.cons .cns (.var pc z tz) .nil)) =
+                .ok (Vs ++ [cv]) := by
+              refine argVals_app_single as'' Vs ?_ hlz
+              rw [argVals_sigExt hext2 as'' hsb]; exact hav
+            have htriv : True := trivial
+            cases htriv with
+            | intro =>
               -- the definition
               obtain ⟨D, a, τa, τ', hD, hname, hctx, hcomp, hτ', hgood, hanot, hnodup, hclosed⟩ :=
                 X.defs f d hfd hfm
@@ -187,8 +154,12 @@ theorem eval_call (X : Ctx p q) {f : String} {as : Fun.Terms}
                 (fun _ => .inr (.inl (by intro h; cases h))), (fun _ => .inl (by omega)), (hc1.trans hc2).trans (.one s3), by simp, ?_⟩
               refine SRel.eval (c := .var .cns ⟨a, 0⟩ τ') (ρ0 := ρnew) hgood (hcomp.mono (Nat.zero_le _))
                 henv ?_ ?_ (.refl _ _)
-              · exact .mk (by simpa [Core.cnsVal] using hla) (hk.mono hn2) trivial
-                  (fun b hb => by rw [mem_tfv_var] at hb; subst hb; exact ⟨_, hla⟩) hτ'
+              · obtain ⟨τb, hgtb, rfl⟩ := hτ'
+                have hT' : STM p (.eval d.body env' k) :=
+                  stepM_preserves X.progM (FStepsM_preserves X.progM f1 hT) hstep
+                obtain ⟨τ2, h1', hkind⟩ := X.kind hT'
+                rw [hgtb] at h1'; cases h1'
+                exact crel_var hk hla hkind
               · refine bind_bound hbind fun y hy hne => ?_
                 obtain ⟨b', hb', e⟩ := X.closed D hD y hy
                 rw [hctx] at hb'
